@@ -21,12 +21,12 @@ CHECKS = {
     'C02': ('other', 'constant evaluation of the window bounds and tolerance + comparison normalisation on loop-exit edges + who-uses rule over MIR',
             'R2a window = settlement date -/+ Duration::days(30) from exactly two public functions; R2b bookkeeping and summary use only those (no private date '
             'arithmetic) on Tx.settlement_date; R2c both scan loops stop strictly outside the bounds (day +-30 inclusive); R2d the specified-loss tolerance '
-            'evaluates to 0.001, is strict, and applies only to un-forced values; every path accepting a supplied loss passes the check or the force marker. ' + PARTIAL % 'C02'),
+            'evaluates to 0.001, is strict, and applies only to un-forced values; every path accepting a supplied loss passes the check or the force marker; R2j a supplied value reaches the record whatever its amount. ' + PARTIAL % 'C02'),
     'C04': ('other', 'ADT-construction closure + sibling field-use agreement over all AcbWriter impls + variant taint over MIR (+ compile-fail witnesses in thorough)',
             'R4a a ConstrainedDecimal (every balance/ACB/amount) can only be created by the checking constructor: all aggregates enumerated, no '
             'field store / &mut borrow / DerefMut-style impl / transmute / unsafe; R4b every output mode (text, CSV, web-UI serialiser) exports '
             'RenderTable.errors and the app pushes the bookkeeping error into it; R4c partial deltas of a rejected security never reach a gains or '
-            'summary calculator; R4d registered affiliates never acquire a cost base or gain; R4e the post-split balance tested for integrality has no factor that is already a rounded quotient; R4f no bookkeeping product or quotient uses the pre-divided factor of a split ratio. ' + PARTIAL % 'C04'),
+            'summary calculator; R4d registered affiliates never acquire a cost base or gain; R4e the post-split balance tested for integrality has no factor that is already a rounded quotient; R4f no bookkeeping product or quotient uses the pre-divided factor of a split ratio; R4g output files are opened truncating. ' + PARTIAL % 'C04'),
     'C05': ('other', 'abstract interpretation in a sign lattice (per generic instantiation) of every ConstrainedDecimal try_from().unwrap(); def-use rule parser-result -> unwrap',
             'R5a each of the ~25 infallibility beliefs `ConstrainedDecimal::try_from(e).unwrap()` is justified by sign algebra including rounding-to-zero, '
             'per instantiation of the generic wrappers (two sites by reviewed relational argument whose premises are re-checked); R5b no parser result on '
@@ -34,14 +34,14 @@ CHECKS = {
     'C06': ('other', 'inter-procedural forward data-flow of rounded values to formatting sinks; parameter/field flow closure of the precision flag; field provenance of year keys',
             'R6a the result of every lossy Decimal operation reaches only string formatting (reviewed barriers with frozen caller sets for the '
             'effective-cent snap and spreadsheet floats); R6b the --print-full-values flag is only ever passed on to PrintHelper, whose field is '
-            'read only by curr_str; R6c gains are bucketed by Tx.settlement_date and total/yearly sums add the same value. ' + PARTIAL % 'C06'),
+            'read only by curr_str; R6c gains are bucketed by Date::year() of Tx.settlement_date (no other calendar accessor) and total/yearly sums add the same value. ' + PARTIAL % 'C06'),
     'C07': ('other', 'field-read set and edge-condition rule on Tx ordering; must-precede (dominator) sort-before-split; loop-carried definition of the read index; header normalisation provenance; index-stability taint',
             'R7a Tx order = (settlement_date, read_index) with read_index only on Equal; R7b sort dominates split_txs_by_security with no mutation in between '
             'and an order-preserving split; R7c the read index is carried across files and incremented per record; R7d header cells are lower-cased and '
             'trimmed before lookup and column indices are positions in the unfiltered row; R7e nothing re-orders or drops the file list between the arguments and the readers. ' + PARTIAL % 'C07'),
     'C08': ('other', 'loop-exit and loop-carried-state rules on per-security loops + argument provenance + global-writer census over MIR',
             'R8a no early exit from any loop driven by a security-keyed map; R8b the bookkeeping entry point gets only that security\'s '
-            'rows/opening position and no &mut state; R8c no process-global mutable state beyond three reviewed statics; R8d no data-dependent state is carried from one iteration of a per-security loop to the next. ' + PARTIAL % 'C08'),
+            'rows/opening position and no &mut state; R8c no process-global mutable state beyond three reviewed statics; R8d no data-dependent state is carried from one iteration of a per-security loop to the next and per-security data is never taken by position; R8f an Affiliate is only built inside the interning table. ' + PARTIAL % 'C08'),
     'C09': ('proof', 'hash-iteration-order taint + sort typestate + loop effect summaries over type-checked MIR; randomness-source census',
             'Every HashMap/HashSet iterator created in any product crate is followed to its consumers; each consumer is discharged '
             '(re-keyed, sorted before use, exact reduction, per-element-key update) or reported; stdout/file sinks only (stderr sinks are '
@@ -55,10 +55,10 @@ CHECKS = {
     'C11': ('other', 'constant-set agreement between writer and reader tables + per-column field mapping agreement + field coverage over MIR',
             'R11a export list = reader set minus deprecated "date"; R11b one writer arm per exported column; R11c the reader consumes every recognised column and '
             'maps each to the field the writer prints it from; R11d every optional column has an in-use trigger guarded by that same field; R11e every CsvTx / Tx / '
-            'specifics field is carried; R11f one CSV writer for transactions; R11g-R11j the writers format losslessly, a commission currency is exported whenever present, no rate is compared by value, table cells reach the record untransformed. ' + PARTIAL % 'C11'),
+            'specifics field is carried; R11f one CSV writer for transactions; R11g-R11j the writers format losslessly, a commission currency is exported whenever present, no rate is compared by value, table cells reach the record untransformed, reader and writers use the default CSV dialect. ' + PARTIAL % 'C11'),
     'C12': ('other', 'inter-procedural field provenance of the look-up date + edge conditions (is_zero, is_some, == USD) + constant evaluation of the look-back range',
             'R12a the rate look-up date derives from CsvTx.trade_date on every chain; R12b a rate from the per-year map is returned only on the non-zero edge; '
-            'R12c the look-back is 7 iterations of minus one day ending in Err; R12d the loader runs only without an explicit rate and for USD; R12e the per-day map only holds loaded data; R12f the published-rate parser never compares a rate by size. ' + PARTIAL % 'C12'),
+            'R12c the look-back is 7 iterations of minus one day ending in Err; R12d the loader runs only without an explicit rate and for USD; R12e the per-day map only holds loaded data; R12f the published-rate parser never compares a rate by size; R12g every downloaded observation is kept when a year is padded. ' + PARTIAL % 'C12'),
     'C13': ('other', 'who-may-call chain of the remote download + symbolic enumeration of the guard paths (memoised / has-date / downloaded-this-run) + must-follow insert',
             'R13a one download site reached through one chain, entered only when the year is not memoised or not downloaded in this run, and followed by memoising the year (<= 1 download per year per run); '
             'R13b cached rates are returned only if the cache contains the requested date or the year was downloaded in this run; R13c the cache is not read when '
@@ -80,14 +80,14 @@ CHECKS = {
             'under its own year and replaced only for a strictly larger total; R17e-R17h nothing is recorded before the skip filters, the carried figure is the closing cost and not the day maximum, every delta reaches the cost pass, the opening cost is recorded once. ' + PARTIAL % 'C17'),
     'C18': ('other', 'index-stability taint (length-changing adaptor before enumerate) + who-may-index rules over MIR',
             'R18a header-name->index maps are built from positions in the unfiltered header row; R18b the converter reads cells only by '
-            'header name; R18c rows are indexed only with the stored index; R18d a foreign-currency trade row always gets its implicit FX leg; R18e no binary-expansion float conversion. ' + PARTIAL % 'C18'),
+            'header name; R18c rows are indexed only with the stored index; R18d a foreign-currency trade row always gets its implicit FX leg; R18e no binary-expansion float conversion; R18f cash amounts keep their sign. ' + PARTIAL % 'C18'),
     'C19': ('other', 'constant + comparison normalisation of the candidate window, pool-consumption data flow, guarded-Ok rule, loop must-pass-through over the matcher',
             'R19a candidates are trades with benefit date <= trade date <= benefit date + 5 days; R19b matched trades are removed from the very pool that later '
             'candidates and the manual trades come from; R19c Ok only when no matching error was recorded; R19d one row per benefit and per left-over trade, pushed '
             'unconditionally, then sorted; R19e-R19g a benefit with sold shares is always matched, the returned set comes from the filtered candidates, every parsed entry is collected. The text parsers and the share-count combination search are NOT decided. ' + PARTIAL % 'C19'),
     'C20': ('other', 'sanitiser must-pass-through (provenance) + grow-only guard (edge condition) rules over MIR',
             'R20a every page-group list reaching the optimised page iterator comes from safe_page_chunks_with_remainder*; R20b the '
-            'loaded-page cache is only resized under len() < new_len and never truncated; R20c-R20f a popped page is yielded, requested pages are loaded and queued unfiltered, the iterator ends only when groups are exhausted or loading failed, every page is tested for the table marker. ' + PARTIAL % 'C20'),
+            'loaded-page cache is only resized under len() < new_len and never truncated; R20c-R20f a popped page is yielded, requested pages are loaded and queued unfiltered, the iterator ends only when groups are exhausted or loading failed, every page is tested for the table marker; R20g/R20h an unfinishable total-like line joins the pending security, remainder page ranges start at 1, reach the last page and are contiguous. ' + PARTIAL % 'C20'),
 }
 
 NOT_APPLICABLE = {
